@@ -640,14 +640,19 @@ def compare_flow(ctx, fl, ans, where):
 
 
 def classify(feat, dump_feat, py, cy):
-    """stable class of a failing case, from the function's features first."""
+    """stable class of a failing case, from the function's features first.  The known classes all have the
+    shape 'CPython raises the unbound error here, the compiled code reads NULL or carries on'."""
     unbound = ("UnboundLocalError", "NameError")
-    if py[0] in unbound and "del_in_try" in feat and (cy[0] == "CRASH" or cy[0] not in unbound):
-        return "del_in_try_no_exception_edge"
-    if py[0] in unbound and "int_consts" in feat and cy[0] not in unbound and cy[0] != "CRASH":
-        return "int_literal_local_inferred_c_long_unchecked"
-    if py[0] in unbound and "del_defnull" in dump_feat and cy[0] not in unbound and cy[0] != "CRASH":
-        return "lenient_del_of_definitely_unbound_is_noop"
+    if py[0] in unbound:
+        pt, ct = py[2][1:-1], cy[2][1:-1]
+        continued = (cy[0] != "CRASH" and ct.startswith(pt) and
+                     (len(ct) > len(pt) or cy[0] not in unbound))
+        if "del_in_try" in feat and (cy[0] in ("CRASH", "SystemError") or continued):
+            return "del_in_try_no_exception_edge"
+        if "int_consts" in feat and continued:
+            return "int_literal_local_inferred_c_long_unchecked"
+        if "del_defnull" in dump_feat and continued:
+            return "lenient_del_of_definitely_unbound_is_noop"
     return "unbound_behaviour_differs"
 
 
@@ -703,7 +708,7 @@ def mark_shared(fl):
 def run(ctx):
     quick = ctx.tier == "quick"
     rng = ctx.rng
-    nmods, nfun, cap = (5, 10, 40) if quick else (32, 14, 128)
+    nmods, nfun, cap = (4, 10, 40) if quick else (32, 14, 128)
     W = ctx.workdir
     with open(os.path.join(W, "c21run.py"), "w") as f:
         f.write(RUNNER)
